@@ -331,6 +331,8 @@ def install_container_models(reg):
     reg.method_models[("Blob", "decode")] = m_blob_decode
     reg.ext_models["struct.Struct"] = m_struct_new
     reg.method_models[("Struct", "unpack_from")] = m_struct_unpack_from
+    reg.ext_models["struct.unpack_from"] = m_struct_unpack_from_fn
+    reg.ext_models["struct.unpack"] = m_struct_unpack_fn
 
 
 STRUCT_FMT = {}     # z3 id of a Struct constant -> format string (filled when the module-level `struct.Struct("<H")` is evaluated)
@@ -344,22 +346,45 @@ def m_struct_new(ex, st, args, kwargs, node):
     return [(st, s_)]
 
 
+def _unpack_le(ex, st, fmt, buf, off, node, exact=False):
+    """ASSUMED semantics of the struct module for little-endian unsigned fields ('<' + B/H/I/Q...): struct.error unless
+    off + size <= len(buf) (exact: == len(buf)); field value = sum(buf[pos+k] * 256**k)."""
+    if not (isinstance(fmt, str) and len(fmt) >= 2 and fmt[0] == "<" and all(ch in _SIZES for ch in fmt[1:])
+            and isinstance(buf, VSeq) and buf.is_bytes and isinstance(off, VInt)):
+        return ex.havoc_call(st, f"struct unpack {fmt!r}", [], node)
+    total = sum(_SIZES[ch] for ch in fmt[1:])
+    o = ops.int_term(off)
+    bad = z3.Or(o < 0, o + total != buf.length) if exact else z3.Or(o < 0, o + total > buf.length)
+    st2 = ex.fork_raise(st, bad, "struct.error")
+    if st2 is None:
+        return []
+    vals, pos = [], 0
+    for ch in fmt[1:]:
+        bs = [ops.int_term(buf.elem(o + pos + k)) for k in range(_SIZES[ch])]
+        st2.assume(z3.And([z3.And(b >= 0, b <= 255) for b in bs]))
+        vals.append(VInt(z3.Sum([b * (256 ** k) for k, b in enumerate(bs)]) if len(bs) > 1 else bs[0]))
+        pos += _SIZES[ch]
+    return [(st2, VTuple(vals))]
+
+
 def m_struct_unpack_from(ex, st, obj, args, kwargs, node):
-    """struct.Struct('<X').unpack_from(buf, off): ASSUMED semantics of the struct module for one little-endian
-    unsigned field: struct.error unless off + size <= len(buf); the value is sum(buf[off+k] * 256**k)."""
     fmt = STRUCT_FMT.get(obj.t.get_id())
     buf = args[0] if args else None
     off = args[1] if len(args) > 1 else kwargs.get("offset", VInt(0))
-    if not (fmt and len(fmt) == 2 and fmt[0] == "<" and fmt[1] in _SIZES and isinstance(buf, VSeq) and buf.is_bytes and isinstance(off, VInt)):
-        return ex.havoc_call(st, f"Struct({fmt}).unpack_from", args, node)
-    size = _SIZES[fmt[1]]
-    o = ops.int_term(off)
-    st2 = ex.fork_raise(st, z3.Or(o < 0, o + size > buf.length), "struct.error")
-    if st2 is None:
-        return []
-    bs = [ops.int_term(buf.elem(o + k)) for k in range(size)]
-    st2.assume(z3.And([z3.And(b >= 0, b <= 255) for b in bs]))
-    return [(st2, VTuple([VInt(z3.Sum([b * (256 ** k) for k, b in enumerate(bs)]))]))]
+    return _unpack_le(ex, st, fmt, buf, off, node)
+
+
+def m_struct_unpack_from_fn(ex, st, args, kwargs, node):
+    fmt = args[0].const() if args and isinstance(args[0], VStr) else None
+    buf = args[1] if len(args) > 1 else kwargs.get("buffer")
+    off = args[2] if len(args) > 2 else kwargs.get("offset", VInt(0))
+    return _unpack_le(ex, st, fmt, buf, off, node)
+
+
+def m_struct_unpack_fn(ex, st, args, kwargs, node):
+    fmt = args[0].const() if args and isinstance(args[0], VStr) else None
+    buf = args[1] if len(args) > 1 else None
+    return _unpack_le(ex, st, fmt, buf, VInt(0), node, exact=True)
 
 
 INLINE_METHODS = {"_get_stream"}
@@ -401,8 +426,9 @@ class C08Executor(readfile.ReadFileExecutor):
         if isinstance(stmt, (ast.Expr, ast.Assign, ast.AnnAssign, ast.If)):
             probe = stmt.test if isinstance(stmt, ast.If) else stmt
             for n in ast.walk(probe):
-                if isinstance(n, ast.Call) and isinstance(n.func, ast.Name):
-                    h = self.module.functions.get(n.func.id)
+                if isinstance(n, ast.Call) and isinstance(n.func, (ast.Name, ast.Attribute)):
+                    nm = n.func.id if isinstance(n.func, ast.Name) else n.func.attr
+                    h = self.module.functions.get(nm) or next((f_ for q_, f_ in self.module.functions.items() if q_.endswith("." + nm) and "<locals>" not in q_), None)
                     if h is not None and any(isinstance(r, ast.Raise) and r.exc is not None and ENCERR in ast.unparse(r.exc) for r in ast.walk(h)):
                         return True
         return False
@@ -445,9 +471,25 @@ class C08Executor(readfile.ReadFileExecutor):
         return [(st, VInt(z3.If(n == 2, two, z3.If(n == 1, e0, z3.If(n == 0, z3.IntVal(0), other)))))]
 
     def obj_method(self, st, obj, name, args, kwargs, node):
-        if not self.inline_calls and name not in INLINE_METHODS and self.reg.get(f"{self.module.rel}::{st.obj(obj.ref).cls}.{name}") is None:
-            return self.havoc_call(st, f"method:{name}", [obj] + list(args), node)
+        q = f"{st.obj(obj.ref).cls}.{name}"
+        if not self.inline_calls and name not in INLINE_METHODS and self.reg.get(f"{self.module.rel}::{q}") is None:
+            fnode = self.module.functions.get(q)
+            small = fnode is not None and sum(1 for _ in ast.walk(fnode)) <= 700 and not any(fnode is x for x in self.cur_fn_stack)
+            if not (self.inline_local and small and self.inline_depth < 3 and self._relevant_helper(q)):
+                return self.havoc_call(st, f"method:{name}", [obj] + list(args), node)
         return super().obj_method(st, obj, name, args, kwargs, node)
+
+    def havoc_call(self, st, what, args, node):
+        self._imprecise(f"un-modelled call {str(what)[:40]}")
+        return super().havoc_call(st, what, args, node)
+
+    def resolve_dotted(self, dotted_):
+        # `from package import module [as m]` / `import package.module as m`: a module of the library, not an unknown
+        if dotted_.startswith("sharepoint2text.") and os.path.exists(os.path.join(self.module.repo, dotted_.replace(".", "/") + ".py")) \
+                and ("const", dotted_) not in self.reg.ext_models:
+            from pyvc.values import VMod
+            return VMod(dotted_)
+        return super().resolve_dotted(dotted_)
 
     RELEVANT = ("ExtractionFileEncryptedError", "Encrypted7zFile", "_encrypted", "needs_password", "decrypt", "patch_pypdf_fallback_aes",
                 "flag_bits", "is_encrypted", "CODER_AES_PREFIX", "FIB_ENCRYPTED_FLAG")
@@ -490,8 +532,9 @@ class C08Executor(readfile.ReadFileExecutor):
 
     def loop_spec(self, node):
         r = self._loop_spec(node)
-        if r is None and isinstance(node, (ast.For, ast.While)):
-            self._imprecise(f"loop at line {node.lineno} cut without an invariant")
+        if isinstance(node, (ast.For, ast.While)):
+            self._imprecise(f"loop at line {node.lineno} cut " + ("by an invariant (a failing VC may only mean the invariant is too weak for this shape)"
+                                                                   if r is not None else "without an invariant"))
         return r
 
     def _loop_spec(self, node):
@@ -509,7 +552,39 @@ class C08Executor(readfile.ReadFileExecutor):
                 return LOOP_RULES.get(("while", "record-chain"))
         return super().loop_spec(node)
 
+    @staticmethod
+    def _exit_assigned_only(body):
+        """Names whose every assignment in the loop body sits in a block that ends in break / return / raise (not inside a
+        nested loop): an iteration that assigned them has left the loop, so at every loop head and at normal exhaustion they
+        still have their entry value (`found = True; break`)."""
+        exits, others = set(), set()
+
+        def stores(node):
+            return {n.id for n in ast.walk(node) if isinstance(n, ast.Name) and isinstance(n.ctx, ast.Store)}
+
+        def walk(block, leaving):
+            leaves = leaving or (bool(block) and isinstance(block[-1], (ast.Break, ast.Return, ast.Raise)))
+            for stt in block:
+                if isinstance(stt, (ast.For, ast.While, ast.FunctionDef, ast.Try, ast.With)):
+                    others.update(stores(stt))
+                elif isinstance(stt, ast.If):
+                    others.update(stores(stt.test))
+                    walk(stt.body, False)
+                    walk(stt.orelse, False)
+                else:
+                    (exits if leaves else others).update(stores(stt))
+        walk(list(body), False)
+        return exits - others
+
     def havoc_loop_state(self, st, body, spec, extra_names=()):
+        keep = {k: st.lookup(k) for k in self._exit_assigned_only(body)}
+        r = self._havoc_loop_state(st, body, spec, extra_names)
+        for k, v in keep.items():
+            if v is not None:
+                st.bind(k, v)
+        return r
+
+    def _havoc_loop_state(self, st, body, spec, extra_names=()):
         # lists the body grows/shrinks (append/extend/insert/pop/remove/clear) do not keep their length
         for n in body:
             for sub in ast.walk(n):
@@ -554,23 +629,110 @@ class C08Executor(readfile.ReadFileExecutor):
 
     def e_GeneratorExp(self, n, st):
         from pyvc.ops import Unsupported
+        mark = len(self.sinks[-1])
         try:
-            return super().e_GeneratorExp(n, st)
+            return super().e_GeneratorExp(n, st.fork())   # on a copy: a failed attempt must leave no effects behind
         except Unsupported:
+            del self.sinks[-1][mark:]
             return self.lazy_generator(n, st)
+
+    def e_ListComp(self, n, st):
+        from pyvc.ops import Unsupported
+        mark = len(self.sinks[-1])
+        try:
+            return super().e_ListComp(n, st.fork())       # on a copy: a failed attempt must leave no effects behind
+        except Unsupported:
+            del self.sinks[-1][mark:]
+            return self.filtered_view(n, st)
+
+    def filtered_view(self, n, st):
+        """[elt for x in seq if cond(x)] over a symbolic sequence: the filtered subsequence, as a symbolic sequence of unknown
+        length m <= n whose i-th element is elt(seq[IDX(i)]) with IDX strictly increasing into the kept positions and ONTO them
+        (INV: every kept position occurs).  Conditions and element must be pure, non-forking, non-raising and must not create
+        fresh symbols (their value has to be a function of the position)."""
+        from pyvc.ops import Unsupported
+        from pyvc import values as _values
+        if len(n.generators) != 1:
+            raise Unsupported(f"{self.loc(n)} nested comprehension over a symbolic sequence")
+        g = n.generators[0]
+        r = self.ev(g.iter, st)                 # evaluated once, eagerly: its exceptional paths are real ones
+        if len(r) != 1 or not isinstance(r[0][1], VSeq):
+            raise Unsupported(f"{self.loc(n)} comprehension over non-sequence")
+        st, src = r[0]
+        s = st.fork()
+        mark = len(self.sinks[-1])
+        tick = next(_values._fresh)
+
+        def at(k):
+            """(keep condition, element value) at source position k -- evaluated on a scratch state"""
+            s2 = s.fork()
+            ss = self.assign(g.target, src.elem(k), s2)
+            if len(ss) != 1:
+                raise Unsupported(f"{self.loc(n)} forking target in comprehension")
+            s2, conds = ss[0], []
+            for cnd in g.ifs:
+                rr = self.ev(cnd, s2)
+                if len(rr) != 1:
+                    raise Unsupported(f"{self.loc(n)} forking condition in comprehension")
+                s2 = rr[0][0]
+                conds.append(self.truth(s2, rr[0][1]).t)
+            rr = self.ev(n.elt, s2)
+            if len(rr) != 1 or len(self.sinks[-1]) != mark:
+                del self.sinks[-1][mark:]
+                raise Unsupported(f"{self.loc(n)} forking / raising element in comprehension")
+            return z3.And(conds + [z3.BoolVal(True)]), rr[0][1]
+        k = z3.Int(fresh_name("k"))
+        keep_k, _probe = at(k)
+        after = next(_values._fresh)
+        # purity check: no symbol created while evaluating at position k may occur in the condition (except k itself)
+        seen, stack = set(), [keep_k]
+        while stack:
+            x = stack.pop()
+            if x.get_id() in seen:
+                continue
+            seen.add(x.get_id())
+            if z3.is_const(x) and x.decl().kind() == z3.Z3_OP_UNINTERPRETED and "!" in x.decl().name():
+                try:
+                    idx = int(x.decl().name().rsplit("!", 1)[1])
+                except ValueError:
+                    idx = -1
+                if tick < idx < after and not x.eq(k):
+                    raise Unsupported(f"{self.loc(n)} comprehension condition creates fresh symbols")
+            stack.extend(x.children())
+        m = z3.Int(fresh_name("m"))
+        IDX = z3.Function(fresh_name("kept_pos"), I, I)
+        INV = z3.Function(fresh_name("kept_rank"), I, I)
+        i_, j_ = z3.Int(fresh_name("i")), z3.Int(fresh_name("j"))
+        keep_at = lambda t: z3.substitute(keep_k, (k, t))
+        st.assume(z3.And(
+            m >= 0, m <= src.length,
+            z3.ForAll([i_], z3.Implies(z3.And(i_ >= 0, i_ < m), z3.And(IDX(i_) >= 0, IDX(i_) < src.length, keep_at(IDX(i_)))), patterns=[IDX(i_)]),
+            z3.ForAll([j_], z3.Implies(z3.And(j_ >= 0, j_ < src.length, keep_at(j_)), z3.And(INV(j_) >= 0, INV(j_) < m, IDX(INV(j_)) == j_)),
+                      patterns=[INV(j_)])))
+        tag = src.tag if isinstance(n.elt, ast.Name) and isinstance(g.target, ast.Name) and n.elt.id == g.target.id else None
+
+        def elem(t):
+            return at(IDX(t))[1] if tag is None else src.elem(IDX(t))
+        out = VSeq(m, elem, src.ekind if tag is not None else "?", False, tag=("filtered", src.tag, IDX, INV, keep_k, k) if tag is not None else None)
+        return [(st, out)]
 
     def lazy_generator(self, n, st):
         """Generator expression over symbolic sequences -> (bound variables, range condition, element) for any()/all().
         Requires the conditions to be non-forking and the element to be pure and non-raising (it may fork)."""
         from pyvc.ops import Unsupported
-        s = st.fork()
         vars_, conds = [], []
-        mark = len(self.sinks[-1])
-        for g in n.generators:
-            r = self.ev(g.iter, s)
+        s, mark = None, None
+        for gi, g in enumerate(n.generators):
+            r = self.ev(g.iter, st if gi == 0 else s)      # the first iterable is evaluated eagerly: its exceptional paths are real
             if len(r) != 1 or not isinstance(r[0][1], VSeq):
                 raise Unsupported(f"{self.loc(n)} generator over non-sequence")
-            s, it = r[0]
+            if gi == 0:
+                st = r[0][0]
+                s = st.fork()
+                mark = len(self.sinks[-1])
+                it = r[0][1]
+            else:
+                s, it = r[0]
             k = z3.Int(fresh_name("k"))
             vars_.append(k)
             conds.append(z3.And(k >= 0, k < it.length))
